@@ -44,18 +44,21 @@ SPEC = Spec(
                     "BitcoinNode.handleReject", "BitcoinNode.handleAddress", "BitcoinNode.handleGetAddresses",
                     "BitcoinNode.handleExtended", "BitcoinNode.handleInventory", "BitcoinNode.handleTx",
                     "BitcoinNode.handleBlock", "discardBlock"],
-    partial_note="theorems cover: frame parsing, unhandled commands, all readMessage-based handlers (any payload), getaddr, inv and headers lists of any length, unrequested "
-                 "blocks, extended framing, never blocked, ping->pong in every reachable state; the streaming transaction parse of the REQUESTED block is covered by the correspondence, not by a theorem",
+    partial_note="",
 )
 
 META = dict(
     technique="Lean 4 proof (byte accounting of every handler incl. uint64 discard arithmetic, frame-parsing theorem, invariant over all histories) + model/implementation correspondence",
     text="Theorems for every state, payload and following bytes: a classic frame of a command without handler is skipped exactly; version/verack/protoconf/ping/pong/reject/addr/tx frames are consumed "
-         "to exactly their declared length or the connection ends (never waiting, never blocked); getaddr; inv and headers whose list is as long as the count says (any length, incl. empty); a block other than the requested one; extended frames (tx, block, unknown; ready or not) consume "
+         "to exactly their declared length or the connection ends (never waiting, never blocked); getaddr; inv and headers whose list is as long as the count says (any length, incl. empty); a block other than the requested one; the REQUESTED block (header, count, that many well-formed transactions, possibly extra bytes inside the declared length; "
+         "classic and extended; handler installed or dropped by a cancel before the message) with the handler receiving every transaction and returning nil; a transaction that fails to parse "
+         "ends the connection after the rest of the message was discarded; extended frames (tx, block, unknown; ready or not) consume "
          "24+20+length; the deferred DiscardInputWithCounter is exact whenever the handler stayed within the declared length; no input blocks the read loop (C14_never_wedges); in every reachable state "
          "a ping is answered by the pong with its nonce and the next message starts right behind it (C14_ping_after_any_sequence). The byte-level model is tied to handlers.go/messages.go by differential "
          "runs of a scripted peer with a barrier ping after every message (0 divergences required).",
-    note=COMMON_NOTE + "Partial at theorem level: exactness for the requested block's streaming transaction parse is established by the correspondence runs "
-         "(generator requests blocks and delivers them classic and extended), not by a Lean theorem. Found and fixed during construction: the 11th extra version/verack after the handshake blocked the read "
-         "loop for ever (no pong); regression corpus/C14/node-handshake-channel-wedge.ops.",
+    note=COMMON_NOTE + "Hypotheses worth knowing: the requested-block theorems are for transactions whose declared counts and script lengths ask the decoder for at most M bytes with M <= env.mem and M <= 2^40 "
+         "(SizeOk; beyond that the dependency's decoder may abort: C15, known finding alloc-declared-count); C14_headers_exact is for a ready node; a cancel that arrives while the count of the requested block is being read "
+         "closes the connection (C16Node.C16_cancel_in_progress_ends), so framing after it is moot. NOT exact, by the code: a requested block whose count announces MORE transactions than the declared length holds is read "
+         "past its declared length (malformed, outside the property); the uint64 discard then swallows the stream or the connection ends on a parse error. Found and fixed during construction: the 11th extra "
+         "version/verack after the handshake blocked the read loop for ever (no pong); regression corpus/C14/node-handshake-channel-wedge.ops.",
 )
